@@ -86,6 +86,19 @@ def run(tier):
             tasks.append({"op": "api_solve", "grid": v, "gridsize": d, "origin": o, "sources": [src[a] + o[a] for a in range(nd)],
                           "nsweep": int(r.choice([2, 3])), "grad": False,
                           "meta": {"nd": nd, "shape": sh, "d": d, "origin": o, "medium": kind, "how": how, "src": src, "eff": eff}})
+        if mode == "jit":
+            # targeted: non-cubic 3-D models (all three cell counts different, each axis in turn the long one) with the source
+            # exactly on the far face of one axis (other coordinates off the grid planes), on far edges and the far corner
+            for sh in [(3, 4, 6), (6, 3, 4), (4, 6, 3), (2, 5, 3)]:
+                d = (0.5, 0.25, 2.0)
+                v, kind = G.medium(r, sh, kind="smooth")
+                ext = [sh[a] * d[a] for a in range(3)]
+                for far_axes in [(0,), (1,), (2,), (0, 1), (1, 2), (0, 2), (0, 1, 2)]:
+                    src = tuple(ext[a] if a in far_axes else (0.3 + 0.11 * a) * ext[a] for a in range(3))
+                    tasks.append({"op": "api_solve", "grid": v, "gridsize": d, "origin": (0.0, 0.0, 0.0), "sources": list(src),
+                                  "nsweep": 2, "grad": False,
+                                  "meta": {"nd": 3, "shape": sh, "d": d, "origin": (0.0, 0.0, 0.0), "medium": kind,
+                                           "how": "far_face" + "".join(str(a) for a in far_axes), "src": src, "eff": src}})
         if mode == "jit":   # corpus: recorded reproducer of known finding C03-near-line-cancellation
             tasks.insert(0, {"op": "api_solve", "grid": np.ones((12, 12)), "gridsize": (0.1, 0.1), "origin": (0.0, 0.0),
                              "sources": [1.2, 0.33], "nsweep": 2, "grad": False,
